@@ -211,7 +211,10 @@ impl<P: BigintCtxParams> Ctx for BigintCtx<P> {
         BigUintX::new(gen.gen_biguint_below(&self.params.exp_modulus().0))
     }
     fn rnd_plaintext(&self) -> Self::P {
-        BigUintP(self.rnd_exp().0)
+        // the plaintext space is 0..(q-1) exclusive: q - 1 itself cannot be encoded
+        let mut gen = StrandRng;
+        let one: BigUint = One::one();
+        BigUintP(gen.gen_biguint_below(&(&self.params.exp_modulus().0 - one)))
     }
 
     fn encode(&self, plaintext: &Self::P) -> Result<Self::E, StrandError> {
